@@ -35,6 +35,7 @@ enum Fam { F_EXPO = 0, F_UNIF, F_GAUSS, F_GAMMA, F_TEXP, F_BETA, NFAM };
 //             TEXP a=lambda b=tp | BETA a=alpha b=beta
 struct CP {
   Fam f = F_EXPO; double a = 1, b = 1, off = 0; bool hasOff = false;
+  bool rev = false;   // UNIF only: the two ends are handed to the constructor as (max, min); a <= b always holds in the model
 };
 
 inline const char* famName(Fam f) {
@@ -46,7 +47,7 @@ inline std::string show(const CP& q) {
   std::string s = famName(q.f); s += "(";
   switch (q.f) {
     case F_EXPO: s += "lambda=" + vf::dec(q.a); break;
-    case F_UNIF: s += "min=" + vf::dec(q.a) + ",max=" + vf::dec(q.b); break;
+    case F_UNIF: s += "min=" + vf::dec(q.a) + ",max=" + vf::dec(q.b) + (q.rev ? ",constructed as (max,min)" : ""); break;
     case F_GAUSS: s += "mu=" + vf::dec(q.a) + ",sigma=" + vf::dec(q.b); break;
     case F_GAMMA: s += "alpha=" + vf::dec(q.a) + ",beta=" + vf::dec(q.b) + ",offset=" + vf::dec(q.off) + (q.hasOff ? "(param)" : "(fixed)"); break;
     case F_TEXP: s += "lambda=" + vf::dec(q.a) + ",tp=" + vf::dec(q.b); break;
@@ -132,7 +133,9 @@ inline Tol tolOf(Fam f) {
 inline std::unique_ptr<DDI> make(const CP& q, size_t K, short scheme) {
   switch (q.f) {
     case F_EXPO: return std::make_unique<bpp::ExponentialDiscreteDistribution>(K, q.a);
-    case F_UNIF: return std::make_unique<bpp::UniformDiscreteDistribution>(static_cast<unsigned>(K), q.a, q.b);
+    case F_UNIF:  // the constructor orders its two arguments itself: either order builds the distribution on [a, b]
+      return q.rev ? std::make_unique<bpp::UniformDiscreteDistribution>(static_cast<unsigned>(K), q.b, q.a)
+                   : std::make_unique<bpp::UniformDiscreteDistribution>(static_cast<unsigned>(K), q.a, q.b);
     case F_GAUSS: return std::make_unique<bpp::GaussianDiscreteDistribution>(K, q.a, q.b);
     case F_GAMMA: return std::make_unique<bpp::GammaDiscreteDistribution>(K, q.a, q.b, 0.05, 0.05, q.hasOff, q.off);
     case F_TEXP: return std::make_unique<bpp::TruncatedExponentialDiscreteDistribution>(K, q.a, q.b);
